@@ -147,6 +147,13 @@ loop:
 	res.Launches = len(col.launches)
 	res.ABIFlags = col.abiFlags()
 	res.Flags = col.flags
+	if os.Getenv("C02_DIAG") != "" && cs.Plat.Timing {
+		if f, err := os.OpenFile("flags.txt", os.O_CREATE|os.O_WRONLY|os.O_APPEND, 0o644); err == nil {
+			fmt.Fprintf(f, "diag max-resident-wavefronts-per-cu=%d work-groups-with-scattered-sgprs=%d\n", col.maxLive, col.scattered)
+			fmt.Fprintf(f, "diag seq %v\n", col.diagSeq)
+			f.Close()
+		}
+	}
 	if cs.Full {
 		res.Traces = col.fullTraces()
 	}
